@@ -8,6 +8,9 @@ register_simp_attr tvsimp
 /-- lemmas `(f w ..).pending = w.pending` (see `Lemmas/PView.lean`) -/
 register_simp_attr pvsimp
 
+/-- lemmas `(f w ..).sigs = w.sigs` (see `Lemmas/SView.lean`) -/
+register_simp_attr svsimp
+
 namespace USim.Machine
 open Lean Elab Tactic
 
